@@ -133,10 +133,28 @@ func errNilPass(fn *ssa.Function, call *ssa.Call) []Edge {
 }
 
 func runC07(c *Ctx) {
-	p := c.P
 	decodeFromFillsPrefix(c, "R7")
 	extensionKeySplit(c, "R2")
 	decodeOnlyThroughDecodeFrom(c, "R3")
+	c07OidRule(c)
+	c07DecodeKV(c)
+	c07KeyOrder(c)
+	c07Canonical(c)
+	c07Encoder(c)
+	c07NoPanic(c)
+	// what is decoded at all — the size cutoff in front of the decoders, the sniffing of clean — decides which byte
+	// strings reach the grammar (C08's rules), and clean is the one producer of extension lines (C01.R10)
+	saved := c.RulePrefix
+	c.RulePrefix = saved + "C08/"
+	runC08(c)
+	c.RulePrefix = saved + "C01/"
+	c01ExtensionNumbering(c)
+	c.RulePrefix = saved
+}
+
+// c07OidRule (R1): the OID language and its use in parseOid (shared with C08: what is not an OID is not a pointer).
+func c07OidRule(c *Ctx) {
+	p := c.P
 	// ---- R1 ---------------------------------------------------------------------------------
 	pats, pos, ok := globalInitStrings(p, "lfs", "oidRE")
 	if !ok || len(pats) != 1 {
@@ -209,11 +227,6 @@ func runC07(c *Ctx) {
 			c.Check(ok2 && nonVacuous(passType), "R1", "parseOid:sha256-tag", p.InstrPos(r), "an oid is returned only for the sha256 type tag", "parseOid can return an oid without the sha256 type tag: "+p2)
 		}
 	}
-	c07DecodeKV(c)
-	c07KeyOrder(c)
-	c07Canonical(c)
-	c07Encoder(c)
-	c07NoPanic(c)
 }
 
 func c07DecodeKV(c *Ctx) {
@@ -1149,6 +1162,7 @@ func funcAt(p *Prog, region map[*ssa.Function]bool, s bceSite) *ssa.Function {
 }
 
 var c07Canaries = []Canary{
+	{Name: "r6-extension-key-split", ExpectKey: "C07.R2#", Edits: []Edit{{File: "lfs/pointer.go", Find: "\toidType     = \"sha256\"\n\toidRE       = regexp.MustCompile(`\\A[0-9a-f]{64}\\z`)\n\tmatcherRE   = regexp.MustCompile(\"git-media|hawser|git-lfs\")\n\textRE       = regexp.MustCompile(`\\Aext-\\d{1}-\\w+`)\n\tpointerKeys = []string{\"version\", \"oid\", \"size\"}\n)\n\n", Repl: "\toidType     = \"sha256\"\n\toidRE       = regexp.MustCompile(`\\A[0-9a-f]{64}\\z`)\n\tmatcherRE   = regexp.MustCompile(\"git-media|hawser|git-lfs\")\n\textRE       = regexp.MustCompile(`\\Aext-(\\d{1})-(\\w+)`)\n\tpointerKeys = []string{\"version\", \"oid\", \"size\"}\n)\n\n"}, {File: "lfs/pointer.go", Find: "}\n\nfunc parsePointerExtension(key string, value string) (*PointerExtension, error) {\n\tkeyParts := strings.SplitN(key, \"-\", 3)\n\tif len(keyParts) != 3 || keyParts[0] != \"ext\" {\n\t\treturn nil, errors.New(tr.Tr.Get(\"Invalid extension value: %s\", value))\n\t}\n\n", Repl: "}\n\nfunc parsePointerExtension(key string, value string) (*PointerExtension, error) {\n\t// The key has already been matched against extRE by decodeKVData, so\n\t// take the priority and the name from its capture groups rather than\n\t// splitting the key a second time.\n\tkeyParts := extRE.FindStringSubmatch(key)\n\tif len(keyParts) != 3 {\n\t\treturn nil, errors.New(tr.Tr.Get(\"Invalid extension value: %s\", value))\n\t}\n\n"}}},
 	{Name: "r5-decodekv-elsewhere", ExpectKey: "C07.R3#decodeKV-caller", Edits: []Edit{{File: "lfs/pointer.go", Find: "func DecodePointer(reader io.Reader) (*Pointer, error) {\n\tp, _, err := DecodeFrom(reader)\n\treturn p, err", Repl: "func DecodePointer(reader io.Reader) (*Pointer, error) {\n\tdata, rerr := io.ReadAll(reader)\n\tif rerr != nil {\n\t\treturn nil, rerr\n\t}\n\tp, err := decodeKV(bytes.TrimSpace(data))\n\treturn p, err"}}},
 	{Name: "r4-read-at-least-one", ExpectKey: "C07.R7", Edits: []Edit{{File: "lfs/pointer.go", Find: "io.ReadFull(reader, buf)", Repl: "io.ReadAtLeast(reader, buf, 1)"}}},
 	{Name: "oid-uppercase", ExpectKey: "C07.R1#oidRE-language", Edits: []Edit{{File: "lfs/pointer.go", Find: "`\\A[0-9a-f]{64}\\z`", Repl: "`\\A[0-9a-fA-F]{64}\\z`"}}},
